@@ -83,7 +83,7 @@ def dtval(dt):
 
 
 u32 = st.one_of(st.sampled_from([0, 1, 255, 256, 2**16, 2**31 - 1, 2**31, 2**32 - 1]), st.integers(0, 2**32 - 1))
-u64 = st.one_of(st.sampled_from([0, 1, 2**32, 2**63 - 1]), st.integers(0, 2**63 - 1))
+u64 = st.one_of(st.sampled_from([0, 1, 2**32, 2**63 - 1, 2**63, 2**64 - 1]), st.integers(0, 2**64 - 1))
 
 
 # ------------------------------------------------------------------ value strategies by reference type
